@@ -239,6 +239,12 @@ _S("special.betainc x", "sp.special.betainc(1.5, 2.5, x / 4.0)", [((3,), "P")])
 _S("special.gammainc x", "sp.special.gammainc(1.5, x)", [((3,), "P")])
 _S("special.gammaincc x", "sp.special.gammaincc(2.5, x)", [((3,), "P")])
 _S("special.multigammaln", "sp.special.multigammaln(x + 2.0, 3)", [((2,), "P")])
+for _f2, _ord in (("polygamma", "[0, 1, 2]"), ("jn", "[0, 1, 2]"), ("yn", "[0, 1, 2]"), ("iv", "[0.0, 1.0, 2.5]"), ("ive", "[0.0, 1.0, 2.5]")):
+    _S(f"special.{_f2} array order, scalar x", f"sp.special.{_f2}(__import__('numpy').array({_ord}), x)", [((), "P")])
+    _S(f"special.{_f2} column order, row x", f"sp.special.{_f2}(__import__('numpy').array({_ord}).reshape(3, 1), x)", [((2,), "P")])
+_S("special.gammainc array a, scalar x", "sp.special.gammainc(__import__('numpy').array([0.5, 1.0, 2.0]), x)", [((), "P")])
+_S("special.betainc array a, scalar x", "sp.special.betainc(__import__('numpy').array([0.5, 1.0, 2.0]), 1.5, x / 4.0)", [((), "P")])
+_S("special.beta column x row", "sp.special.beta(x, y)", [((2, 1), "P"), ((3,), "P")], (0, 1))
 _S("special.logsumexp", "sp.special.logsumexp(x)", [((2, 3), "R")])
 _S("special.logsumexp axis", "sp.special.logsumexp(x, axis=1)", [((2, 3), "R")])
 _S("special.logsumexp axis=-2 keepdims", "sp.special.logsumexp(x, axis=-2, keepdims=True)", [((2, 3), "R")])
